@@ -18,6 +18,13 @@ def _contains(root: ast.AST, node: ast.AST) -> bool:
     return any(n is node for n in ast.walk(root))
 
 
+# exits that precede the error gate and cannot be taken for parser output: (function, statement) -> reason
+REVIEWED_PRE_GATE = {
+    ("NixSourceCode.from_cst", "raise ValueError('Missing source text')"): "guards `node.text is None`; a tree-sitter node parsed from bytes always carries its text "
+    "(the raw text is exactly what pass-through needs)",
+}
+
+
 def run(prog: Program) -> Results:
     res = Results("C07")
     fc = prog.func("NixSourceCode.from_cst")
@@ -124,6 +131,30 @@ def run(prog: Program) -> Results:
                 "the error arm can fall through into structured parsing")
 
     # ---------------------------------------------------------------- R-C07-2 raw text = the whole input
+    # the gate is reached for every input: nothing between the entry of parse()/from_cst and the gate may reject
+    for key in ("parse", "NixSourceCode.from_cst"):
+        g = prog.func(key)
+        gcfg = CFG(g.node)
+        if key == "parse":
+            goal = [n for n in gcfg.nodes if n.ast is not None and n.kind in ("stmt", "return", "test") and any(
+                isinstance(c, ast.Call) and norm(c.func).endswith("from_cst") for c in ast.walk(n.ast))]
+        else:
+            goal = [n for n in gcfg.nodes if n.kind == "test" and n.ast is gate.ast] or [n for n in gcfg.nodes if n.kind == "test" and norm(n.ast) == norm(gate.ast)]
+        r1.instances += 1
+        if not goal:
+            res.unclass(f"{key}: the call into NixSourceCode.from_cst / the error gate was not found")
+            continue
+        early = []
+        for n in gcfg.nodes:
+            if isinstance(n.ast, (ast.Raise, ast.Assert)) or (n.kind == "return" and n not in goal):
+                if not gcfg.all_paths_pass(n, cut_nodes=goal):
+                    early.append(n)
+        early = [n for n in early if (key, norm(n.ast)) not in REVIEWED_PRE_GATE]
+        r1.ob(not early, {"function": key, "exits_before_the_gate": [norm(n.ast)[:50] for n in early], "reviewed": len(REVIEWED_PRE_GATE)})
+        for n in early:
+            res.add("R-C07-1", (key, "exit before the error gate", type(n.ast).__name__), g.loc(n.ast),
+                    f"{key}: `{norm(n.ast)[:70]}` can leave before the syntax-error gate is consulted: a text whose tree-sitter root is "
+                    f"itself an ERROR node (nothing recoverable) is rejected with an exception instead of being passed through")
     r2 = res.rule("R-C07-2", "the raw text is the complete parser input (no strip/slice/normalise in between) and "
                   "RawExpression.rebuild returns it unchanged", floor=3)
     raw_call = exprs.elts[0]
